@@ -628,6 +628,21 @@ theorem C01_duplex_liveness (env : Env) (hl : EnvLaws env) (sub : Nat) (ciA ciB 
   duplex_liveness env hl sub ciA ciB sizeA sizeB hA hB startA startB hsA hsB ops d h0 hok hopenB hopenA hconA hconB hidleA hidleB hallA hallB
 
 open Nx.L1 Nx.Prudp in
+/-- **Graceful close, both directions on one connection.** In every state a duplex history reaches: if B's application has
+    seen end-of-stream — here that can only come from A's DISCONNECT being released by B's window — and A's `disconnect()` was
+    called while no `send` of A was between its fragments, then B's application had received everything A's application sent;
+    and the same with A and B exchanged. (While A is disconnecting it goes on receiving: `disconnectA` is a frame step of the
+    B→A direction.) -/
+theorem C01_duplex_graceful_close (env : Env) (hl : EnvLaws env) (sub : Nat) (ciA ciB : Cipher) (sizeA sizeB : Nat) (hA : 1 ≤ sizeA) (hB : 1 ≤ sizeB)
+    (startA startB : Nat) (ops : List DOp) (d : Duplex) (chAB chBA : Chan)
+    (h0 : DGood env sub ciA ciB sizeA sizeB startA startB d chAB chBA) (hok : Duplex.runOk env sub d ops = true) :
+    ((Duplex.run env sub d ops).ab.b.eof = true → (Duplex.run env sub d ops).ab.clean = true →
+      ((Duplex.run env sub d ops).ab.b.queues[sub]?.getD []) = (Duplex.run env sub d ops).ab.accepted) ∧
+    ((Duplex.run env sub d ops).ab.a.eof = true → (Duplex.run env sub d ops).ba.clean = true →
+      ((Duplex.run env sub d ops).ab.a.queues[sub]?.getD []) = (Duplex.run env sub d ops).ba.accepted) :=
+  duplex_closed (duplex_run env hl sub ciA ciB sizeA sizeB hA hB startA startB ops d chAB chBA h0 hok)
+
+open Nx.L1 Nx.Prudp in
 /-- the duplex hypotheses hold for two endpoints that are `Established` in both directions (what a handshake leaves) -/
 theorem C01_duplex_established (env : Env) (sub startA startB : Nat) (a b : Conn)
     (hab : Established sub startA a b) (hba : Established sub startB b a) :
@@ -643,8 +658,8 @@ theorem delivery_hypothesis_is_the_window {env : Env} {sub : Nat} {ci : Cipher} 
 /-! non-vacuity: two established endpoints; A sends a two-fragment message fragment by fragment (B's send and a second send
     of A, which finds the lock taken, fall between the fragments), B two messages; the packets of both directions
     are delivered out of order, one twice; a forged DISCONNECT arrives at B and a forged DATA packet at A; a keep-alive of A, an acknowledgement arriving at A; the run meets `Duplex.runOk`,
-    both endpoints are `Established` towards each other at the start, and at the end each application has exactly what the
-    other one sent -/
+    both endpoints are `Established` towards each other at the start; then A disconnects gracefully, B still sends a message
+    which A (disconnecting) receives, A's DISCONNECT reaches B: end-of-stream at B with everything A sent delivered -/
 open Nx.L1 Nx.Prudp in
 example :
     let env : Env := { C04.toyEnv with s := { fragmentSize := 2, transport := TRANSPORT_TCP } }
@@ -654,12 +669,13 @@ example :
     let forgedB : Packet := { type := TYPE_DISCONNECT, flags := 6, packetId := 1, sessionId := 3, signature := some [99] }
     let forgedA : Packet := { type := TYPE_DATA, flags := 14, packetId := 1, sessionId := 6, payload := [66], signature := some [98] }
     let ops := [DOp.beginA 0 [1, 2, 3], .fragA 0, .sendB 0 [7, 7], .sendA 0 [5], .injectB 1 forgedB, .fragA 1, .toB 1 1, .toA 1 0, .injectA 1 forgedA, .toB 2 0, .toB 3 1, .pingA 4, .toB 4 2,
-                .beginB 5 [8], .fragB 5, .toA 6 1, .ackToA 6 ack, .toA 7 0]
+                .beginB 5 [8], .fragB 5, .toA 6 1, .ackToA 6 ack, .toA 7 0, .disconnectA 8, .sendB 9 [9], .toA 9 2, .toB 10 3]
     let d0 : Duplex := { ab := Sys.fresh a b, ba := Sys.fresh b a }
     (establishedB 0 1 a b && establishedB 0 1 b a) = true ∧
     Duplex.runOk env 0 d0 ops = true ∧
     (Duplex.run env 0 d0 ops).ab.b.queues = [[[1, 2, 3]]] ∧ (Duplex.run env 0 d0 ops).ab.accepted = [[1, 2, 3]] ∧
-    (Duplex.run env 0 d0 ops).ab.a.queues = [[[7, 7], [8]]] ∧ (Duplex.run env 0 d0 ops).ba.accepted = [[7, 7], [8]] ∧
+    (Duplex.run env 0 d0 ops).ab.a.queues = [[[7, 7], [8], [9]]] ∧ (Duplex.run env 0 d0 ops).ba.accepted = [[7, 7], [8], [9]] ∧
+    (Duplex.run env 0 d0 ops).ab.b.eof = true ∧ (Duplex.run env 0 d0 ops).ab.clean = true ∧
     (Duplex.run env 0 d0 ops).ab.a = (Duplex.run env 0 d0 ops).ba.b := by decide +kernel
 
 end Nx.C01
